@@ -106,7 +106,14 @@ class EffectsAnalysis:
     def _index_is_basic(self, idx, env_kinds):
         """True if idx is a basic index (ints/slices/None/Ellipsis): view."""
         if isinstance(idx, ast.Tuple):
-            return all(self._index_is_basic(e, env_kinds) for e in idx.elts)
+            # three-valued: one advanced component makes a copy; otherwise one unknown
+            # component leaves the question open (x[i, :] with i of unknown kind may be a view)
+            rs = [self._index_is_basic(e, env_kinds) for e in idx.elts]
+            if any(r is False for r in rs):
+                return False
+            if any(r is None for r in rs):
+                return None
+            return True
         if isinstance(idx, ast.Slice):
             return True
         if isinstance(idx, ast.Constant):
@@ -184,7 +191,9 @@ class EffectsAnalysis:
                                 'np.append', 'np.unique', 'np.nonzero',
                                 'np.zeros', 'np.ones', 'np.concatenate',
                                 'np.argsort', 'np.ix_', 'list') or \
-                            cn.endswith('.flatten') or cn.endswith('.astype'):
+                            cn.endswith('.flatten') or cn.endswith('.astype') or (
+                                isinstance(v.func, ast.Attribute) and v.func.attr in (
+                                    'flatten', 'ravel', 'astype', 'reshape', 'nonzero', 'argsort', 'cumsum', 'tolist')):
                         k = 'array'
                 elif isinstance(v, (ast.Compare, ast.List, ast.ListComp)):
                     k = 'array'
